@@ -307,3 +307,9 @@ def r6(rr, repo):
 def r7(rr, repo):
     from .c02 import r7 as c02r7
     c02r7(rr, repo)
+
+
+@rule('C03.R8', 'an empty set counts as complete on the receiving side too: the completeness predicates of C01.R4 (got_all must not demand a non-empty set)')
+def r8(rr, repo):
+    from .c01 import r4 as c01r4
+    c01r4(rr, repo)
